@@ -91,6 +91,8 @@ def install(w):
             return sor(*[isinstance_one(it, v, c, node) for c in cls.items])
         if isinstance(cls, VAtom):
             cls = VConst(sym.atom_obj(cls))
+        if isinstance(cls, VFunc) and isinstance(cls.fn, type):
+            cls = VConst(cls.fn)
         if not (isinstance(cls, VConst) and isinstance(cls.obj, type)):
             raise Unsupported(f"isinstance against {cls!r}")
         k = cls.obj
